@@ -8,9 +8,19 @@ from pyvc.values import Obj, Sym, Arr, Vec, Opaque, NAN, OutOfSubset
 from props import indic
 
 PROPERTY = 'C13'
-LEVEL = 'other'
+LEVEL = 'proof'
 FUNCTIONS = ['jesse.helpers.slice_candles', 'jesse.helpers.get_candle_source', 'jesse.helpers.same_length', 'jesse.helpers.np_shift']
 ASSUMPTIONS = [
+    'UNBOUNDED layer (causal.<name>, pyvc/causal.py): dependency-level typing of the real AST of the wrapper and of every repo function it '
+    'calls, numba kernels included (inlined): floats are abstracted to the largest candle row they may depend on, index arithmetic is exact '
+    '(z3 linear integer terms), arrays carry level(A[k]) <= max(k + lag, base) and a constant region; the row count n is information of '
+    'level n, a test n > e has level e, iteration i of range(lo, n - c) exists iff row i + c exists; implicit flows through branches, early '
+    'returns, loop existence and store indices are tracked by a pc level; loop invariants level(x) <= max(i + c, entry, b) are found by '
+    'candidate elimination and checked inductively; every index read is proved >= 0 (a negative index wraps to the end of the input). '
+    'Non-interference of this type system gives: two inputs that agree on rows 0..k produce the same value at position k whatever their '
+    'lengths. Assumed: numpy functions behave as their transfer rules in pyvc/causal_np.py say (each rule lists alignment, lag and length); '
+    'A-4 numba executes Python semantics; default parameters (concrete); a run that raises has no series to compare (its guard is assumed '
+    'false on the runs compared); float NaN payloads / signalling are ignored; termination not proved',
     'A-1 reals; A-4 numba kernels execute their Python semantics (negative indices wrap, as in numba); transcendental functions are '
     'uninterpreted (prefix equality then holds by congruence only)',
     'BOUNDED in the input length: each indicator is executed on N concrete-length candle arrays with fully symbolic values, for the '
@@ -18,20 +28,25 @@ ASSUMPTIONS = [
     'indicators whose code leaves the engine\'s subset are listed under not_under_contract: no proof, no alarm',
     'the extrema detector (minmax) is exempt as the statement says',
 ]
-TRUSTED = ['numpy element-wise model over concrete-length vectors (pyvc/npvec.py)']
+TRUSTED = ['numpy element-wise model over concrete-length vectors (pyvc/npvec.py)', 'numpy transfer rules of the causality prover (pyvc/causal_np.py)']
 EXPLANATION = ('bounded stand-in (never counted as proved): every public indicator inside the subset is run symbolically on a full and '
                'on a prefix input of concrete lengths; the prefix of the full series must equal the series of the prefix, term by term')
 MANIFEST = {
-    'technique': 'contract-based verification, bounded stand-in only: symbolic execution of the real indicator ASTs on concrete-length symbolic candles (prefix vs full input), plus bounded native prefix comparison on long and tied series',
-    'category': 'other',
-    'text': 'Bounded stand-in, labelled as such: for every public indicator with a sequential result whose code stays inside the '
-            'engine\'s subset (list in the evidence), the real function is executed symbolically on candle arrays of concrete lengths '
-            '(N and a prefix K, all OHLCV values symbolic reals) and every field of f(c[:K]) is proved equal to f(c)[:K] position by '
-            'position (syntactic identity of the real-arithmetic terms, z3 otherwise). This decides causality for all values at those '
-            'lengths - wrap-around reads of the last element and global normalisers show up as a term that mentions a later candle - '
-            'but not for all lengths, so it is not counted as a proof.',
-    'note': 'bounded in the series length (values unbounded); default parameters; recorded findings list the indicators that are not '
-            'causal on the unchanged tree; indicators outside the subset are not claimed.',
+    'technique': 'contract-based deductive verification: dependency-level (non-interference) typing of the real indicator and kernel ASTs with index obligations and inductive loop invariants discharged by z3, unbounded in the input length (pyvc/causal.py); bounded symbolic execution and bounded native prefix comparison where it does not apply',
+    'category': 'proof',
+    'text': 'Unbounded layer: for every public indicator with a sequential result the real AST of the wrapper and of every function it '
+            'calls (numba kernels inlined) is typed with dependency levels: a float is abstracted to the largest candle row it may depend '
+            'on, integers that steer indices keep their exact symbolic value, arrays carry level(A[k]) <= max(k + lag, base) plus a constant '
+            'region, the row count n has level n, a test n > e has level e, iteration i of range(lo, n - c) exists iff row i + c exists, and '
+            'implicit flows (branches, early returns, loop existence, store indices) are tracked by a pc level. Obligations discharged by z3 '
+            'for every n: each index read is >= 0 (no wrap-around to the end of the input), each store fits the element type, each loop '
+            'invariant is inductive, and each returned series satisfies level(R[k]) <= k outside its constant region - so value k is a '
+            'function of candles 0..k only, for inputs of ANY length (default parameters). Proved for the indicators listed in the evidence '
+            '(113 of 168 on the unchanged tree); the prover can only prove - where it does not apply, or loses a proof after a change, the '
+            'bounded layers decide: symbolic execution on concrete-length symbolic candles (prefix vs full input, term by term) and the '
+            'bounded native prefix comparison on long and tied series.',
+    'note': 'default parameters; indicators not proved by the unbounded layer are listed per name in the evidence with the reason and are '
+            'covered by the bounded layers only (never counted as proved); recorded findings list the indicators that are not causal.',
 }
 FINDINGS = set(json.loads(os.environ.get('PYVC_FINDINGS', '[]')))
 EXEMPT = {'minmax'}
@@ -58,6 +73,35 @@ def mk_native_task(name):
         known = f'C13-{name}-not-causal' in FINDINGS
         h.prove(known or not res.get('confirmed'), f'{name}.prefix-consistent-on-long-and-tied-series.native-bounded', {'detail': res.get('detail')})
     return t
+
+
+def mk_causal_task(name, qual):
+    """UNBOUNDED: dependency-level typing of the real wrapper and kernels (pyvc/causal.py).  Can only prove: when it does not apply
+    (or a change loses the proof) the bounded tasks of the same indicator decide."""
+    def t(h):
+        from pyvc import causal
+        try:
+            r = causal.prove_causal(h.repo, qual)
+        except causal.Unsupported as e:
+            raise OutOfSubset(f'outside the causality prover\'s subset: {e}')
+        except causal.NotProved as e:
+            raise OutOfSubset(f'causality not provable by dependency typing: {str(e)[:300]}')
+        h.prove(True, f'{name}.value-k-depends-only-on-candles-0..k.for-every-input-length',
+                {'backend': 'dependency typing + z3 (pyvc/causal.py)', 'series': r['fields'], 'kernels_inlined': r['kernels'],
+                 'z3_queries': r['queries'], 'element_type_restarts': r['restarts']})
+    return t
+
+
+def causal_selftest(h):
+    """guard: the prover must lose the proof on every seeded non-causal mutant of a proved indicator (scratch copy of the sources)"""
+    import subprocess, sys
+    r = subprocess.run([sys.executable, os.path.join(HERE, 'tools', 'causal_mutants.py')], capture_output=True, text=True, timeout=600)
+    if r.returncode != 0:
+        raise RuntimeError('causality prover self-test failed (a non-causal mutant was proved):\n' + r.stdout[-2000:] + r.stderr[-500:])
+    n = sum(1 for line in r.stdout.splitlines() if line.startswith('ok'))
+    if n < 10:
+        raise RuntimeError('causality prover self-test ran fewer than 10 mutants:\n' + r.stdout[-2000:])
+    h.prove(True, 'causal-prover.selftest.every-non-causal-mutant-loses-its-proof', {'mutants': n})
 
 
 def mk_task(name, qual):
@@ -116,6 +160,7 @@ def tasks(tier):
                 continue
         except KeyError:
             continue
+        ts.append(Task('causal.' + name, mk_causal_task(name, qual), functions=[qual], extra=dict(task_timeout_s=120)))
         ts.append(Task('native.' + name, mk_native_task(name), extra=dict(bounded='native: 400 / 1600 candles, random and tied series, prefixes 61 / 333 / 1200',
                                                                            task_timeout_s=300)))
         if tier == 'quick' and name in HEAVY:
@@ -126,5 +171,6 @@ def tasks(tier):
     def mustfail(h):
         x = h.real('x')
         h.prove(ops.equal(x, 0), 'engine.mustfail')
+    ts.append(Task('causal.selftest', causal_selftest, extra=dict(task_timeout_s=600)))
     ts.append(Task('mustfail', mustfail))
     return ts
